@@ -501,7 +501,7 @@ var enumerated = []string{
 	"1<<512", "1<<511 + (1<<511 - 1)", "-(1<<511)", "1e308*10", "1.7976931348623157e308", "5e-324/2", "1e40/1e-40",
 	// invalid
 	"1/0", "1%0", "1.0/0", "1/0.0", "1i/0", "1.5%2", "1.5&1", "1<<-1", "1<<1.5", "1.5<<1", `"a"+1`, `1+"a"`, `"a"*2`, `"a"-"b"`, "true+1", "true<false", "1i<2i", `"a"==1`, "1==true",
-	"!1", `-"a"`, "^1.5", "-true", "true&false", "1&&2", "1<<(1<<64)", "1 << 1e30",
+	"!1", `-"a"`, "^1.5", "-true", "true&false", "1&&2", "1<<(1<<64)", "1 << 1e30", "1<<1074", "1<<1075", "1>>1075", "1 << (1<<40)",
 }
 
 func main() {
@@ -512,7 +512,7 @@ func main() {
 		"each tree evaluated (1) by gomacro with OptKeepUntyped, (2) by the exact math/big reference evaluator, (3) by go/types types.Eval; every accepted value is then used in typed contexts "+
 		"`var x T = e` and `T(e)` for T over the 17 basic kinds (3 targets per value, biased to the value's neighbourhood) judged by go/types (accept/reject) and one batched compiled-Go program (values, float bit patterns), "+
 		"and in `var b *big.Int|*big.Rat|*big.Float = e` judged against math/big built from the exact value; corpus/C04/*.json replayed first. "+
-		"Generators avoid: shift counts > 1100 (gomacro does not bound them; memory), values outside go/constant's exact big.Rat range for the model comparison. "+
+		"Shift counts up to 1100 (bound 1074 as go/types); the model comparison skips values outside go/constant's exact big.Rat range for the model comparison. "+
 		"A case is non-trivial when it contains >=1 operator and is accepted; distinct by SHA-256 of the source text")
 	newInterp()
 	wd := vh.NewWatchdog(rep, 60*time.Second)
@@ -615,8 +615,8 @@ func main() {
 				fail("untyped "+src, "value/kind differs from exact arithmetic", src, got.String(), want.String())
 			}
 			if terr != nil {
-				// go/types limits untyped integers to 512 bits and shift counts to 1074: not a disagreement
-				if e := terr.Error(); strings.Contains(e, "overflow") || strings.Contains(e, "shift count") {
+				// go/types limits untyped integers to 512 bits: not a disagreement
+				if e := terr.Error(); strings.Contains(e, "overflow") && !strings.Contains(e, "shift count") {
 					rep.Dist("gotypes:size_limit")
 				} else {
 					fail("oracle "+src, "oracle disagreement: go/types rejects what the reference evaluator accepts", src, terr.Error(), want.String())
@@ -788,7 +788,8 @@ func checkUntypedSrc(rep *vh.Report, src, stream string) *uv {
 	key := "untyped " + src
 	switch {
 	case terr != nil:
-		if e := terr.Error(); strings.Contains(e, "overflow") || strings.Contains(e, "shift count") {
+		if e := terr.Error(); strings.Contains(e, "overflow") && !strings.Contains(e, "shift count") {
+			// go/types limits untyped integers to 512 bits: undecided
 			rep.Dist("gotypes:size_limit")
 			return nil
 		}
